@@ -33,7 +33,10 @@ ALPHA_NODE = ['a', ' ', '\\\\', '&', '{a\\\\b&c}', '%c\n', '\\textbf{&}', '~']
 ALPHA_KV = ['a', 'b', ',', '=', ' ', '{x,y=z}', '{}', '\\textbf{k=v}', '%c,=\n']
 
 SEP_KINDS = [('str', ','), ('str', '::'), ('rx', '[,;]'), ('callpair', ','), ('callmatch', '[,;]'),
-             ('str', '=')]
+             ('str', '='), ('rx', ',+'), ('rx', ' *, *'), ('calldone-neg', ','),
+             ('calldone-empty', ','), ('calldone-match', ',')]
+# child node kinds the statement names (math, environments, specials) in a second alphabet
+ALPHA2 = ['a', ',', '=', ' ', '$x,y=z$', '\\begin{x}a,b=c\\end{x}', '~', '{a,b}']
 
 
 def sep_object(sk):
@@ -49,13 +52,29 @@ def sep_object(sk):
                 return None
             return (i, i + len(v))
         return f
+    if k.startswith('calldone'):
+        # the other documented ways for a callable to say "no further separator"
+        class NoMatch(object):
+            def start(self):
+                return -1
+
+            def end(self):
+                return -1
+        done = {'calldone-neg': (-1, -1), 'calldone-empty': [], 'calldone-match': NoMatch()}[k]
+
+        def g(chars, pos):
+            i = chars.find(v, pos)
+            if i < 0:
+                return done
+            return (i, i + len(v))
+        return g
     rx = re.compile(v)
     return lambda chars, pos: rx.search(chars, pos)
 
 
 def model_finder(sk):
     k, v = sk
-    if k in ('str', 'callpair'):
+    if k in ('str', 'callpair') or k.startswith('calldone'):
         return M.sep_finder(('str', v))
     return M.sep_finder(('rx', v))
 
@@ -271,9 +290,11 @@ def check_keyval(s, nl, opt, res, case):
     res.case()
     action = opt['action']
     default = opt.get('default')
+    csep, esep = opt.get('seps') or (',', '=')
+    extract = opt.get('extract', True)
     spans = top_spans(nl)
-    commas = M.separators(s, spans, M.sep_finder(('str', ',')))
-    eqs = M.separators(s, spans, M.sep_finder(('str', '=')))
+    commas = M.separators(s, spans, M.sep_finder(('str', csep)))
+    eqs = M.separators(s, spans, M.sep_finder(('str', esep)))
     parts = [p for p in M.split_keep_empty(s, 0, len(s), commas) if p[0] != p[1]]
     top = [(n.pos, n.pos_end, kind(n)) for n in nl.nodelist if n is not None]
     expect = []
@@ -286,7 +307,13 @@ def check_keyval(s, nl, opt, res, case):
             bad_key = True
         expect.append((keyspan, valspan))
     kw = {'repeated_key_aggregate_action': action}
-    if default is not None:
+    if (csep, esep) != (',', '='):
+        kw['comma_sep_chars'], kw['eq_sep_chars'] = csep, esep
+    if not extract:
+        kw['extract_value_group_contents'] = False
+    if default == 'visible':
+        kw['default_value_nodelist'] = px.parse('DFLT', None, tolerant=False, monitored=False)[1]
+    elif default is not None:
         kw['default_value_nodelist'] = nl.latex_walker.make_nodelist(
             [], parsing_state=nl.parsing_state, pos=0, pos_end=0)
     try:
@@ -322,10 +349,12 @@ def check_keyval(s, nl, opt, res, case):
         if keyspan[0] == keyspan[1]:
             special_empty_key = True
         v = None if valspan is None else s[valspan[0]:valspan[1]]
+        if valspan is None and default == 'visible':
+            v = 'DFLT'
         if valspan is not None:
             inner = [(x, y, kk) for x, y, kk in top if valspan[0] <= x and y <= valspan[1]]
-            if len(inner) == 1 and inner[0][2] == 'group' and inner[0][0] == valspan[0] \
-               and inner[0][1] == valspan[1]:
+            if extract and len(inner) == 1 and inner[0][2] == 'group' \
+               and inner[0][0] == valspan[0] and inner[0][1] == valspan[1]:
                 v = s[valspan[0] + 1:valspan[1] - 1]
         if k in model:
             repeated = True
@@ -396,6 +425,9 @@ NODE_OPTS = [{'pred': p, 'keep_separators': k, 'max_split': m, 'skip_none': sn}
              for sn in (True, False)]
 KV_OPTS = [{'action': a, 'default': d} for a in ('first', 'last', 'concatenate', 'error')
            for d in (None, 'empty')]
+KV_OPTS += [dict({'action': a, 'default': None}, **extra)
+            for a in ('first', 'last', 'concatenate', 'error')
+            for extra in ({'default': 'visible'}, {'seps': [';', ':']}, {'extract': False})]
 
 
 def run_case(case, res, count=True):
@@ -406,6 +438,14 @@ def run_case(case, res, count=True):
         res.label('input-does-not-parse')
         return
     opt = case['opt']
+    if what == 'kv' and opt.get('seps'):
+        toks2 = [t.replace(',', opt['seps'][0]).replace('=', opt['seps'][1])
+                 for t in case['tokens']]
+        try:
+            s, nl = make_list(toks2, case.get('none_at') or [])
+        except Exception:
+            res.label('input-does-not-parse')
+            return
     if what == 'chars':
         opt = dict(opt, sep=tuple(opt['sep']))
         n = check_split_chars(s, nl, opt, res, case)
@@ -429,6 +469,7 @@ def plan(tier, seed):
     shards = [('chars', L, k) for k in range(NSHARDS)]
     shards += [('node', LN, k) for k in range(NSHARDS)]
     shards += [('kv', LK, k) for k in range(NSHARDS)]
+    shards += [('chars2', L, k) for k in range(NSHARDS)]
     shards += [('rand', nrand // NSHARDS, seed * 1000 + k) for k in range(NSHARDS)]
     return {'shards': shards,
             'bounds': {'tokens_chars': L, 'tokens_node': LN, 'tokens_keyval': LK,
@@ -437,7 +478,8 @@ def plan(tier, seed):
                                        'keyval': len(KV_OPTS)}},
             'required_classes': ['chars:non-trivial', 'node:non-trivial', 'kv:non-trivial',
                                  'keyval:repeated-key:first', 'keyval:repeated-key:concatenate',
-                                 'with-none-entries']}
+                                 'with-none-entries',
+                                 'separator-inside-math-or-environment']}
 
 
 def enum(alpha, L, k):
@@ -471,7 +513,22 @@ def run_shard(shard, res):
         return
     _, L, k = shard
     alpha, opts = {'chars': (ALPHA, CHARS_OPTS), 'node': (ALPHA_NODE, NODE_OPTS),
-                   'kv': (ALPHA_KV, KV_OPTS)}[what]
+                   'kv': (ALPHA_KV, KV_OPTS), 'chars2': (ALPHA2, CHARS_OPTS)}[what]
+    if what == 'chars2':
+        # separators inside math, environments and next to specials: splitting and key-value
+        # parsing over the second alphabet
+        for toks in enum(alpha, L, k):
+            h = sum(len(t) * (i + 1) for i, t in enumerate(toks))
+            for j in range(6):
+                run_case({'what': 'chars', 'tokens': toks, 'opt': opts[(h + j * 11) % len(opts)]},
+                         res)
+            for j in range(3):
+                run_case({'what': 'kv', 'tokens': toks, 'opt': KV_OPTS[(h + j * 5) % len(KV_OPTS)]},
+                         res)
+            if any(len(t) > 3 for t in toks) and any(t in (',', '=') for t in toks):
+                res.nontriv_distinct(9)
+                res.label('separator-inside-math-or-environment', {'tokens': toks})
+        return
     for toks in enum(alpha, L, k):
         nt = classify(toks, what)
         # the chars sweep at full length uses a rotating subset of the option sets per list
@@ -479,14 +536,20 @@ def run_shard(shard, res):
         if what == 'chars' and len(toks) >= 4:
             h = sum(len(t) * (i + 1) for i, t in enumerate(toks))
             use = [opts[(h + j * 7) % len(opts)] for j in range(8)]
+        if what == 'kv' and len(toks) >= 5:
+            h = sum(len(t) * (i + 1) for i, t in enumerate(toks))
+            use = [opts[(h + j * 3) % len(opts)] for j in range(5)]
         for opt in use:
             case = {'what': what, 'tokens': toks, 'opt': opt}
             run_case(case, res)
+            if what == 'node' and toks:
+                run_case(dict(case, none_at=[len(toks) // 2]), res)
+                res.label('with-none-entries')
             if nt:
                 res.nontriv_distinct()
         if nt:
             res.label(what + ':non-trivial', {'tokens': toks})
-    res.exhaustive = (what != 'chars' or L < 4)
+    res.exhaustive = (what == 'node' or (what == 'chars' and L < 4) or (what == 'kv' and L < 5))
 
 
 def check_case(case, res):
